@@ -65,7 +65,7 @@ def gen(rng, depth):
     if k == "builtin" and rng.random() < 0.5:
         # the whole table of built-in functions, with every arity the interpreter accepts
         one = ["sqrt", "cbrt", "abs", "sin", "cos", "tan", "cot", "sec", "csc", "asin", "atan", "sinh", "cosh", "tanh", "exp", "log",
-               "log2", "log10", "exp2", "gamma", "heaviside", "frac", "re", "im", "floor", "ceiling", "round", "nlz", "lambertw"]
+               "log2", "log10", "exp2", "gamma", "heaviside", "frac", "re", "im", "floor", "ceiling", "round", "nlz", "lambertw", "sgn"]
         r = rng.random()
         if r < 0.6:
             return E.fun(rng.choice(one), E.sym(rng.choice(SYMS)) if rng.random() < 0.6 else a)
